@@ -87,6 +87,12 @@ struct HllUnionFam {
   static std::string cfg_str(const Cfg& c) { return hcfg_str(c); }
   static void construct(void* mem, const Cfg& c, Arena* a, Rng& r) { new (mem) HllU(r.coin() ? c.lg_k1 : c.lg_k2, A(a)); }
   static void mutate(Obj& o, const Cfg& c, Rng& r, Arena* scratch) {
+    if (r.chance(0.08)) {   // feed the union its own result: safety only
+      Hll res = o.get_result(pick_type(r));
+      if (r.coin()) o.update(res); else o.update(std::move(res));
+      xcount("hll_union.update_with_own_result");
+      return;
+    }
     const uint64_t how = r.below(5);
     if (how == 0) { feed(o, c, r); return; }
     Hll s(static_cast<uint8_t>(r.chance(0.6) ? (r.coin() ? c.lg_k1 : c.lg_k2) : r.range(4, 12)), pick_type(r), r.chance(0.1), A(scratch));
